@@ -81,7 +81,9 @@ def post_add_node(ctx, call):
 def pre_add_edge(ctx, call):
     d, src, tgt = call.args[0], call.args[1], call.args[2]
     # the model state *before* the edge: replay what was recorded so far
-    return replay(hist(d))
+    m = replay(hist(d))
+    m.hist_len = len(hist(d))
+    return m
 
 
 def replay(events):
@@ -92,10 +94,9 @@ def replay(events):
         elif ev[0] == "edge":
             _, src, tgt, failed = ev
             if failed:
-                m.tainted = "an earlier add_edge raised"
-                continue
-            if src is tgt:
-                m.tainted = "self-edge"
+                continue  # a rejected edge leaves the diagram as it was
+            if src is tgt and m.index_of(src) is None:
+                m.tainted = "self-edge on a node that is not yet part of the diagram"
             si, ti = m.index_of(src), m.index_of(tgt)
             if si is None or ti is None or not m.cov[si] or not m.con[ti]:
                 m.tainted = m.tainted or "history inconsistent"
@@ -113,12 +114,14 @@ def post_add_edge(ctx, call):
     h = hist(d)
     failed = call.exc is not None
     m = call.pre
+    if failed and m is not None:
+        del h[m.hist_len:]  # nodes registered by the rejected call do not stay in the diagram
     h.append(("edge", src, tgt, failed))
     if m is None or m.tainted:
         ctx.skip("diagram.add_edge", f"not judged: {m.tainted if m else 'no model'}")
         return
-    if src is tgt:
-        ctx.skip("diagram.add_edge", "self-edge (outside the claimed domain)")
+    if src is tgt and m.index_of(src) is None:
+        ctx.skip("diagram.add_edge", "self-edge on a node that is not yet part of the diagram (outside the claimed domain)")
         return
     # model prediction: nodes not yet present are added with all their indices unused
     si, ti = m.index_of(src), m.index_of(tgt)
@@ -522,6 +525,23 @@ def g_special_programs(ctx, rng, i):
         TensorDiagram((bv, bw)).calculate()
         TensorDiagram((bv, Tensor(rng.random((n, n)) < 0.6, covariant=[1]))).calculate()
     else:
+        # an edge from a node to itself (a trace) on a node that is already part of the diagram
+        mm = Tensor(gen.coords(rng, (3, 3), 3, "int"), covariant=[0])
+        a3 = Tensor(gen.coords(rng, (3, 3, 3), 3, "int"), covariant=[0, 1])
+        vv = Tensor(gen.coords(rng, (3,), 3, "int"), covariant=False)
+        d = TensorDiagram()
+        d.add_node(mm)
+        d.add_edge(mm, mm)
+        d.calculate()
+        d = TensorDiagram((a3, vv))
+        d.add_edge(a3, a3)
+        d.calculate()
+        d = TensorDiagram((a3, vv))
+        d.add_node(mm)
+        if i % 2:
+            d.add_edge(mm, mm)
+        d.add_edge(a3, a3)
+        d.calculate()
         dim = 3
         a = Tensor(gen.coords(rng, (dim, dim), 3, "int"), covariant=[0, 1])
         b = Tensor(gen.coords(rng, (dim, dim), 3, "int"), covariant=False)
